@@ -20,6 +20,7 @@ import (
 
 func genSnapScenario(r *verifsim.Run) *cScenario {
 	sc := &cScenario{Focus: "C16"}
+	sc.OutName = outNames[r.Draw(len(outNames))]
 	nConn := r.OneOf(1, 1, 2, 3)
 	val := 1
 	for ci := 0; ci < nConn; ci++ {
@@ -402,7 +403,7 @@ func kindOfStall(s string) string {
 }
 
 func stripRequests(sc *cScenario) *cScenario {
-	out := &cScenario{Focus: sc.Focus}
+	out := &cScenario{Focus: sc.Focus, OutName: sc.OutName}
 	for _, cn := range sc.Conns {
 		c2 := *cn
 		c2.Ev = nil
